@@ -391,6 +391,23 @@ func work(ctx *runner.Ctx) {
 			}
 		}
 	}
+	// a garbler input wider than 65536 wires (label batches, 16-bit wire ids): bits 65536 apart differ
+	{
+		g := make([]byte, 8193)
+		for i := range g {
+			g[i] = byte(31*i + 7)
+		}
+		g[0], g[8192] = 0xa5, 0x5a
+		hex := "0x"
+		for _, b := range g {
+			hex += fmt.Sprintf("%02x", b)
+		}
+		src := "package main\nfunc main(g [8193]byte, e byte) byte {\n\treturn g[0] ^ g[8192] ^ g[4096] ^ e\n}\n"
+		cases = append(cases, cs{Mode: "stream", Src: src, G: hex, E: "60", OT: "co", Seed: uint64(ctx.Seed)})
+		if !quick {
+			cases = append(cases, cs{Mode: "stream", Src: src, G: hex, E: "255", OT: "cot", Seed: uint64(ctx.Seed) + 1})
+		}
+	}
 	// sha2pc
 	curves := []string{"P-256"}
 	if !quick {
